@@ -2,9 +2,12 @@
   C13 — NaN propagation of the arithmetic statistics ("Returns `f64::NAN` if … an entry is
   `f64::NAN`" on the `Statistics` trait), wherever the NaN sits in the data.
   Stated for EVERY carrier `α` under the explicit hypothesis that NaN is absorbing for the
-  arithmetic the code performs (`NaNArith`; `NaNFun` for `exp`/`ln`; `SqrtNaN` for `sqrt`) — true
-  of IEEE arithmetic; `NaNArith Float` and `SqrtNaN Float` are proved in FloatInst.lean.  `population_variance`/`population_std_dev` do NOT satisfy the documented
-  convention on one-entry data: see `population_variance_nan_counterexample`.
+  arithmetic the code performs (`NaNArith`; `NaNFun` for `exp`/`ln`; `SqrtNaN` for `sqrt`;
+  `AbsNaN` for the `abs` inside `harmonic_mean`) — true of IEEE arithmetic; `NaNArith Float`,
+  `SqrtNaN Float` and `AbsNaN Float` are proved in FloatInst.lean.
+  `population_variance`/`population_std_dev` satisfy the documented convention for data of every
+  length, one-entry data included (the `if sum.is_nan() { return NAN }` guard on the first
+  element): `population_variance_nan`, `population_variance_singleton_isNaN_iff`.
 -/
 import Statrs.Props.C13.Conventions
 namespace Statrs.Props.C13
@@ -30,6 +33,10 @@ structure NaNFun (α : Type) [RFun α] : Prop where
 /-- `sqrt` maps NaN to NaN -/
 def SqrtNaN (α : Type) [RFun α] : Prop :=
   ∀ a : α, RFun.isNaN a = true → RFun.isNaN (RFun.sqrt a) = true
+
+/-- `abs` maps NaN to NaN -/
+def AbsNaN (α : Type) [RFun α] : Prop :=
+  ∀ a : α, RFun.isNaN a = true → RFun.isNaN (RFun.abs a) = true
 
 section
 variable {α : Type} [Add α] [Sub α] [Mul α] [Div α] [Neg α] [LT α] [LE α] [BEq α]
@@ -123,7 +130,9 @@ theorem geometric_mean_nan (A : NaNArith α) (F : NaNFun α) (xs : List α)
 
 /-! ### harmonic mean -/
 
-theorem harmonic_loop_nan (A : NaNArith α) (l : List α) (i s : α)
+/-- the loop adds `1.0 / |x|`: a NaN entry poisons the running sum through `abs` (`AbsNaN`) and
+    `/`, unless an earlier negative entry already made the loop return NaN -/
+theorem harmonic_loop_nan (A : NaNArith α) (B : AbsNaN α) (l : List α) (i s : α)
     (h : RFun.isNaN s = true ∨ ∃ x ∈ l, RFun.isNaN x = true) :
     IterStatistics.harmonic_mean.loop1 l i s = LoopR.ret (RFun.nan : α) ∨
     ∃ i' s', IterStatistics.harmonic_mean.loop1 l i s = LoopR.done (i', s')
@@ -142,13 +151,14 @@ theorem harmonic_loop_nan (A : NaNArith α) (l : List α) (i s : α)
       rcases h with h | ⟨x, hx, hn⟩
       · exact Or.inl (A.add_l _ _ h)
       · rcases List.mem_cons.1 hx with rfl | hx
-        · exact Or.inl (A.add_r _ _ (A.div_r _ _ hn))
+        · exact Or.inl (A.add_r _ _ (A.div_r _ _ (B _ hn)))
         · exact Or.inr ⟨x, hx, hn⟩
 
 /-- any NaN entry ⇒ `harmonic_mean` is NaN -/
-theorem harmonic_mean_nan (A : NaNArith α) (xs : List α) (h : ∃ x ∈ xs, RFun.isNaN x = true) :
+theorem harmonic_mean_nan (A : NaNArith α) (B : AbsNaN α) (xs : List α)
+    (h : ∃ x ∈ xs, RFun.isNaN x = true) :
     RFun.isNaN (IterStatistics.harmonic_mean xs) = true := by
-  rcases harmonic_loop_nan A xs (0.0 : α) (0.0 : α) (Or.inr h) with e | ⟨i', s', e, hs⟩
+  rcases harmonic_loop_nan A B xs (0.0 : α) (0.0 : α) (Or.inr h) with e | ⟨i', s', e, hs⟩
   · simp only [IterStatistics.harmonic_mean, e]; exact A.nan
   · simp only [IterStatistics.harmonic_mean, e]
     split
@@ -214,22 +224,45 @@ theorem popvar_loop_eq' (l : List α) (x i s v : α) :
     unfold IterStatistics.population_variance.loop2 IterStatistics.variance.loop2
     exact ih _ _ _ _
 
-/-- any NaN entry in data with at least two entries ⇒ `population_variance` is NaN.
-    (For ONE entry the documented convention fails: `population_variance_nan_counterexample`.) -/
-theorem population_variance_nan_of_two_le (A : NaNArith α) (xs : List α) (h2 : 2 ≤ xs.length)
+/-- any NaN entry ⇒ `population_variance` is NaN, for data of EVERY length: a NaN first entry is
+    caught by the `is_nan` guard (`population_variance_head_nan`; on one-entry data nothing else
+    would ever look at it), a later one poisons the update loop -/
+theorem population_variance_nan (A : NaNArith α) (xs : List α)
     (h : ∃ x ∈ xs, RFun.isNaN x = true) :
     RFun.isNaN (IterStatistics.population_variance xs) = true := by
-  match xs, h2, h with
-  | x0 :: y :: t, _, h =>
-    have hc : RFun.isNaN (0.0 : α) = true ∨ (RFun.isNaN x0 = true ∧ y :: t ≠ [])
-        ∨ ∃ x ∈ y :: t, RFun.isNaN x = true := by
-      obtain ⟨x, hx, hn⟩ := h
-      rcases List.mem_cons.1 hx with rfl | hx
-      · exact Or.inr (Or.inl ⟨hn, by simp⟩)
-      · exact Or.inr (Or.inr ⟨x, hx, hn⟩)
-    obtain ⟨i', s', v', e, hv⟩ := variance_loop_nan A (y :: t) (1.0 : α) x0 (0.0 : α) hc
-    simp only [IterStatistics.population_variance, listNext, popvar_loop_eq', e]
-    exact A.div_l _ _ hv
+  match xs, h with
+  | x0 :: t, h =>
+    by_cases h0 : RFun.isNaN x0 = true
+    · rw [population_variance_head_nan x0 t h0]; exact A.nan
+    · match t, h with
+      | [], h =>
+        obtain ⟨x, hx, hn⟩ := h
+        rcases List.mem_cons.1 hx with rfl | hx
+        · exact absurd hn h0
+        · simp at hx
+      | y :: t, h =>
+        have hc : RFun.isNaN (0.0 : α) = true ∨ (RFun.isNaN x0 = true ∧ y :: t ≠ [])
+            ∨ ∃ x ∈ y :: t, RFun.isNaN x = true := by
+          obtain ⟨x, hx, hn⟩ := h
+          rcases List.mem_cons.1 hx with rfl | hx
+          · exact Or.inr (Or.inl ⟨hn, by simp⟩)
+          · exact Or.inr (Or.inr ⟨x, hx, hn⟩)
+        obtain ⟨i', s', v', e, hv⟩ := variance_loop_nan A (y :: t) (1.0 : α) x0 (0.0 : α) hc
+        simp only [IterStatistics.population_variance, listNext, h0, popvar_loop_eq', e]
+        exact A.div_l _ _ hv
+
+/-- any NaN entry ⇒ `population_std_dev` is NaN, for data of every length -/
+theorem population_std_dev_nan (A : NaNArith α) (S : SqrtNaN α) (xs : List α)
+    (h : ∃ x ∈ xs, RFun.isNaN x = true) :
+    RFun.isNaN (IterStatistics.population_std_dev xs) = true :=
+  S _ (population_variance_nan A xs h)
+
+/-- any NaN entry in data with at least two entries ⇒ `population_variance` is NaN
+    (special case of `population_variance_nan`, which needs no length restriction) -/
+theorem population_variance_nan_of_two_le (A : NaNArith α) (xs : List α) (_h2 : 2 ≤ xs.length)
+    (h : ∃ x ∈ xs, RFun.isNaN x = true) :
+    RFun.isNaN (IterStatistics.population_variance xs) = true :=
+  population_variance_nan A xs h
 
 /-- … and `population_std_dev` -/
 theorem population_std_dev_nan_of_two_le (A : NaNArith α) (S : SqrtNaN α) (xs : List α)
@@ -237,11 +270,27 @@ theorem population_std_dev_nan_of_two_le (A : NaNArith α) (S : SqrtNaN α) (xs 
     RFun.isNaN (IterStatistics.population_std_dev xs) = true :=
   S _ (population_variance_nan_of_two_le A xs h2 h)
 
-/-- On one-entry data `population_variance` does not look at the entry at all: the result is
-    `0.0 / 1.0` whatever the entry is (every carrier) -/
-theorem population_variance_singleton_eq (x : α) :
+/-- On one-entry data whose entry is not NaN, `population_variance` does not look at the entry any
+    further: the result is `0.0 / 1.0` (every carrier).  (A NaN entry gives NaN:
+    `population_variance_singleton_nan`.) -/
+theorem population_variance_singleton_eq (x : α) (h : RFun.isNaN x = false) :
     IterStatistics.population_variance [x] = (0.0 : α) / (1.0 : α) := by
-  simp [IterStatistics.population_variance, IterStatistics.population_variance.loop2, listNext]
+  simp [IterStatistics.population_variance, IterStatistics.population_variance.loop2, listNext, h]
+
+/-- `population_variance [x]` is NaN exactly when `x` is NaN, on every carrier with the NaN laws
+    on which `0.0 / 1.0` is not a NaN -/
+theorem population_variance_singleton_isNaN_iff (A : NaNArith α)
+    (h01 : RFun.isNaN ((0.0 : α) / (1.0 : α)) = false) (x : α) :
+    RFun.isNaN (IterStatistics.population_variance [x]) = true ↔ RFun.isNaN x = true := by
+  constructor
+  · intro h
+    cases hx : RFun.isNaN x with
+    | true => rfl
+    | false =>
+      rw [population_variance_singleton_eq x hx, h01] at h
+      exact absurd h Bool.false_ne_true
+  · intro hx
+    exact population_variance_nan A [x] ⟨x, by simp, hx⟩
 
 /-! ### covariance -/
 
@@ -302,17 +351,20 @@ theorem population_covariance_nan (A : NaNArith α) (xs ys : List α)
 
 end
 
-/-! ### the documented convention FAILS for `population_variance` on one-entry data -/
+/-! ### the documented convention HOLDS for `population_variance` on one-entry data -/
 
 /-- `Statistics::population_variance` is documented to return NaN "if data is empty or an entry
-    is `f64::NAN`"; on the one-entry vector `[NaN]` the code returns `0.0 / 1.0 = 0` (IEEE
-    `Float`, kernel-evaluated): the single entry is only stored in `sum` and never reaches the
-    result. -/
-theorem population_variance_nan_counterexample :
+    is `f64::NAN`"; on the one-entry vector `[NaN]` the code now returns NaN (IEEE `Float`,
+    kernel-evaluated) — before the `is_nan` guard on the first element it returned
+    `0.0 / 1.0 = 0`.  A non-NaN single entry still gives `0`. -/
+theorem population_variance_singleton_nan_float :
     (RFun.isNaN (RFun.nan : Float) = true) ∧
-    RFun.isNaN (IterStatistics.population_variance [(RFun.nan : Float)]) = false ∧
-    IterStatistics.population_variance [(RFun.nan : Float)] == (0.0 : Float) := by
-  rw [population_variance_singleton_eq]
-  decide
+    RFun.isNaN (IterStatistics.population_variance [(RFun.nan : Float)]) = true ∧
+    RFun.isNaN (IterStatistics.population_std_dev [(RFun.nan : Float)]) = true ∧
+    IterStatistics.population_variance [(3.0 : Float)] == (0.0 : Float) := by
+  refine ⟨by decide, ?_, ?_, ?_⟩
+  · rw [population_variance_singleton_nan _ (by decide)]; decide
+  · rw [IterStatistics.population_std_dev, population_variance_singleton_nan _ (by decide)]; decide
+  · rw [population_variance_singleton_eq _ (by decide)]; decide
 
 end Statrs.Props.C13
